@@ -238,10 +238,18 @@ static int registerGlobalObject(KSI_CTX *ctx, int (*obj_new)(KSI_CTX*, void**), 
 		if (res != KSI_OK) goto cleanup;
 
 		res = KSI_List_append(ctx->cleanupFnList, (void *)obj_free);
-		if (res != KSI_OK) goto cleanup;
+		if (res != KSI_OK) {
+			obj_free(tmp);
+			goto cleanup;
+		}
 
 		res = KSI_List_append(ctx->globalObjList, (void *)tmp);
-		if (res != KSI_OK) goto cleanup;
+		if (res != KSI_OK) {
+			/* Keep the two lists in step: unregister the cleanup function again. */
+			KSI_List_remove(ctx->cleanupFnList, KSI_List_length(ctx->cleanupFnList) - 1, NULL);
+			obj_free(tmp);
+			goto cleanup;
+		}
 	} else {
 		res = KSI_List_elementAt(ctx->globalObjList, pos, &tmp);
 		if (res != KSI_OK) goto cleanup;
@@ -368,11 +376,20 @@ int KSI_CTX_registerGlobals(KSI_CTX *ctx, int (*initFn)(void), void (*cleanupFn)
 		if (res != KSI_OK) goto cleanup;
 
 		res = KSI_List_append(ctx->cleanupFnList, (void *)cleanupFn);
-		if (res != KSI_OK) goto cleanup;
+		if (res != KSI_OK) {
+			/* Not registered: undo the initialization. */
+			cleanupFn();
+			goto cleanup;
+		}
 
 		/* Just add a dummy placeholder. */
 		res = KSI_List_append(ctx->globalObjList, (void *)NULL);
-		if (res != KSI_OK) goto cleanup;
+		if (res != KSI_OK) {
+			/* Keep the two lists in step: unregister the cleanup function again. */
+			KSI_List_remove(ctx->cleanupFnList, KSI_List_length(ctx->cleanupFnList) - 1, NULL);
+			cleanupFn();
+			goto cleanup;
+		}
 	}
 
 	res = KSI_OK;
